@@ -280,6 +280,7 @@ class TreeRun:
         self.step = -1
         self.stopped = False
         self.removed: dict = {}  # uid -> (class, entry point, absence-check mode) for C05 clauses
+        self.lazy_trigger_used = False
         self.removed_via: dict = {}  # (workspace tag, uid) -> entry point (a cross copy keeps the uid: one entry per file)
         self.removed_names: dict = {}
         self.stats = {"effective": 0, "kinds": set(), "reopens": 0, "onfile_mutations": 0,
@@ -1459,6 +1460,10 @@ class TreeRun:
             gc.collect()
             for listing in ("groups", "objects", "data"):
                 getattr(wd.ws, listing)
+        if op["via"] == "parent" and mode != "listing-first":
+            # (only with allow_known) the trigger of the lazy-deletion finding is active from here on: which stale nodes
+            # are still in the file at the next close depends on when the collector freed the Python objects
+            self.lazy_trigger_used = True
         for g in gone:
             self.removed[g] = (cls, op["via"], mode)
             self.removed_via[(wd.tag, g)] = op["via"]
@@ -1556,6 +1561,7 @@ class TreeRun:
     def check_raw_absent(self, wd):
         """After a close: nothing in the file mentions a removed entity (plain h5py view)."""
         snap = rawsnap(str(wd.path))
+        lazy = ":after-lazy-removal" if self.lazy_trigger_used else ""
         gone = {("{" + g + "}").lower(): g for g in self.removed if g not in wd.nodes}
         # an identifier that was removed and then used again for an entity of another kind: the node left in the OLD
         # container is still the removed entity's
@@ -1565,17 +1571,17 @@ class TreeRun:
             for uid, node in nodes.items():
                 if uid.lower() in reused and container_of.get(wd.kind.get(reused[uid.lower()])) != cname:
                     cls, via, mode = self.removed[reused[uid.lower()]]
-                    self.fail("C05", "file-node-remains", "remove_" + via, cls, f"{cname}:{mode}", f"{cname}/{uid} still in the file after removal and close (its identifier is in use again, in another container)")
+                    self.fail("C05", "file-node-remains", "remove_" + via, cls, f"{cname}:{mode}{lazy}", f"{cname}/{uid} still in the file after removal and close (its identifier is in use again, in another container)")
                     return
                 if uid.lower() in gone:
                     cls, via, mode = self.removed[gone[uid.lower()]]
-                    self.fail("C05", "file-node-remains", "remove_" + via, cls, f"{cname}:{mode}", f"{cname}/{uid} still in the file after removal and close")
+                    self.fail("C05", "file-node-remains", "remove_" + via, cls, f"{cname}:{mode}{lazy}", f"{cname}/{uid} still in the file after removal and close")
                     return
                 for sub, entries in node["children"].items():
                     for child in entries:
                         if child.lower() in gone:
                             cls, via, mode = self.removed[gone[child.lower()]]
-                            self.fail("C05", "file-link-remains", "remove_" + via, cls, sub, f"{cname}/{uid}/{sub}/{child} link remains after removal and close")
+                            self.fail("C05", "file-link-remains", "remove_" + via, cls, sub + lazy, f"{cname}/{uid}/{sub}/{child} link remains after removal and close")
                             return
                 for pg_uid, attrs in (node["pgs"] or {}).items():
                     props = attrs.get("Properties") or []
